@@ -449,6 +449,9 @@ class AssocGen(ProgGen):
             return self.stmt_assign(ind)
         tgt, _ = self._assign_target('real')
         e = self.ex.real_expr(env, 1)
+        if re.match(r'^[0-9.]+_?\w*$', e):
+            # frontend defect outside C29: 'f(<real literal>, a%b%c)' is read like a complex constant and loses 'a%'
+            e = f'({e})'
         i, b = self.ex.int_expr(env, 1)
         if b > 1000:
             i = f'mod({i}, 23)'
